@@ -19,6 +19,9 @@ import Osmium.Lemmas.ConvCoordRt
 import Osmium.Lemmas.ConvCoordFixed
 import Osmium.Generated.Src
 import Osmium.Lemmas.CxxSem
+import Osmium.Lemmas.SrcTieCoord2
+import Osmium.Lemmas.SrcTieOpl
+import Osmium.Lemmas.SrcTieTs
 
 namespace Osmium.Conv.C13
 
@@ -401,6 +404,129 @@ theorem src_tie_leap_year (y : Nat) :
     simp [Int.tmod]
     omega
   · simp [Src.Timestamp.parse_timestamp_leap_year_defined, sdivOk]
+
+/-! #### `detail::string_to_location_coordinate(const char**)` (osm/location.hpp), TRANSLATED from the source on every
+     run (character-cursor subset of tools/cxx2lean.py: the byte array `buf`, the cursor cell `*data` as the state of the
+     `Outcome`), against the model `parseCoord Variant.now` that every coordinate theorem above is about.  The proof
+     goes through the translator's loops and join points (Lemmas/SrcTieCoord.lean, SrcTieCoord2.lean: `src_tie_coord_*`). -/
+
+/-- For EVERY byte string `s` — no assumption on its content; it is NUL-terminated inside the array `s ++ 0 :: t` —,
+    every start position `i` in it and any fuel ≥ 100010 (the scaling loop runs at most 8 + 99999 times): the translated
+    function returns exactly what the model returns on the suffix `s.drop i`: the same value and the same end position
+    (`*data` afterwards = the index of the model's `rest`), or `osmium::invalid_location` with `*data` left alone. -/
+theorem src_tie_string_to_location_coordinate (s t : List UInt8) (i fuel : Nat) (hi : i ≤ s.length) (hfuel : 100010 ≤ fuel) :
+    Src.Location.string_to_location_coordinate fuel (s ++ 0 :: t) (i : Int) =
+      (match parseCoord Variant.now (s.drop i) with
+       | .ok out => .normal ((s.length - out.rest.length : Nat) : Int) out.value
+       | .error _ => .thrown "osmium::invalid_location" (i : Int)) ∧
+    (∀ out, parseCoord Variant.now (s.drop i) = .ok out → ∃ j, j ≤ s.length ∧ out.rest = s.drop j) := by
+  obtain ⟨h1, -, h3⟩ := SrcTie.Coord.src_tie_coord_main s t i fuel hi hfuel
+  refine ⟨?_, fun out h => (h3 out h).2⟩
+  rw [h1]
+  cases parseCoord Variant.now (s.drop i) <;> rfl
+
+/-- C03 clause "the coordinate parser never reads past the NUL", now about the TRANSLATED code: on every NUL-terminated
+    input the execution has no undefined behaviour — every `*str` / `*(str + 1)` / `*extra++` reads inside the array,
+    every pointer that is formed stays within it (one past the end included), the string handed to the exception
+    message is NUL-terminated, and no signed arithmetic overflows (`result * 10 + digit`, `scale += eresult * esign`,
+    `(result + 5) / 10 * sign`); correspondingly the model never records an overflow (`ovf = false`). -/
+theorem src_tie_coord_reads_in_bounds (s t : List UInt8) (i fuel : Nat) (hi : i ≤ s.length) (hfuel : 100010 ≤ fuel) :
+    Src.Location.string_to_location_coordinate_defined fuel (s ++ 0 :: t) (i : Int) = true ∧
+    (∀ out, parseCoord Variant.now (s.drop i) = .ok out → out.ovf = false) := by
+  obtain ⟨-, h2, h3⟩ := SrcTie.Coord.src_tie_coord_main s t i fuel hi hfuel
+  exact ⟨h2, fun out h => (h3 out h).1⟩
+
+-- the translated function runs: "-1.5e1," from index 0 is -15.0000000 and stops at the comma; "1e" is rejected
+example : Src.Location.string_to_location_coordinate 100010 ([45, 49, 46, 53, 101, 49, 44] ++ 0 :: []) 0 = .normal 6 (-150000000) := by
+  decide +kernel
+example : Src.Location.string_to_location_coordinate 100010 ([49, 101] ++ 0 :: []) 0 = .thrown "osmium::invalid_location" 0 := by
+  decide +kernel
+
+/-! #### `io::detail::opl_parse_int<T>(const char**)` (io/detail/opl_parser_functions.hpp), both instantiations the OPL
+     reader uses (`int64_t`: object ids; `uint32_t`: versions, changeset ids, uids), TRANSLATED from the source on every
+     run, against the model `oplParseInt tmin tmax` of `opl_int_strict` / `opl_int_needs_digit` / `opl_int_no_overflow`
+     (Lemmas/SrcTieOpl.lean: `src_tie_opl_parse_int_ppc_*`). -/
+
+/-- the outcome of the translated `opl_parse_int<T>` that corresponds to a model result: same value, `*s` afterwards =
+    the index of the model's rest; where the model fails, `osmium::opl_error` is thrown with `*s` somewhere in the string -/
+def OplIntTie (s : List UInt8) (i : Nat) (m : Except Err (Int × List UInt8)) (o : CxxSem.Outcome Int Int) : Prop :=
+  match m with
+  | .ok (v, rest) => ∃ j, i ≤ j ∧ j ≤ s.length ∧ rest = s.drop j ∧ o = .normal (j : Int) v
+  | .error _ => ∃ j, i ≤ j ∧ j ≤ s.length ∧ o = .thrown "osmium::opl_error" (j : Int)
+
+/-- `opl_parse_int<int64_t>` = `oplParseInt INT64_MIN INT64_MAX`, for EVERY byte string (NUL-terminated in the array
+    `s ++ 0 :: t`), every start position and any fuel > the number of characters left + 1 (the digit loop consumes one
+    character per iteration: "000…0" of any length is accepted) -/
+theorem src_tie_opl_parse_int_i64 (s t : List UInt8) (i fuel : Nat) (hi : i ≤ s.length) (hf : s.length - i + 2 ≤ fuel) :
+    OplIntTie s i (oplParseInt int64Min int64Max (s.drop i)) (Src.OplParserFunctions.opl_parse_int_ppc_ri64 fuel (s ++ 0 :: t) i) :=
+  (SrcTie.Opl.src_tie_opl_parse_int_ppc_ri64_main s t i fuel hi hf).1
+
+/-- `opl_parse_int<uint32_t>` = `oplParseInt 0 UINT32_MAX` (a negative number other than "-0" is "integer too long") -/
+theorem src_tie_opl_parse_int_u32 (s t : List UInt8) (i fuel : Nat) (hi : i ≤ s.length) (hf : s.length - i + 2 ≤ fuel) :
+    OplIntTie s i (oplParseInt 0 4294967295 (s.drop i)) (Src.OplParserFunctions.opl_parse_int_ppc_ru32 fuel (s ++ 0 :: t) i) :=
+  (SrcTie.Opl.src_tie_opl_parse_int_ppc_ru32_main s t i fuel hi hf).1
+
+/-- C03 clause for the integer parser, about the TRANSLATED code: no read outside the NUL-terminated array, no pointer
+    outside it, and the negatively accumulated `int64_t value` never overflows (`value *= 10; value -= digit;` run only
+    behind the `-922337203685477580` guard; `value = -value` only for `value ≠ INT64_MIN`) -/
+theorem src_tie_opl_parse_int_reads_in_bounds (s t : List UInt8) (i fuel : Nat) (hi : i ≤ s.length) (hf : s.length - i + 2 ≤ fuel) :
+    Src.OplParserFunctions.opl_parse_int_ppc_ri64_defined fuel (s ++ 0 :: t) i = true ∧
+    Src.OplParserFunctions.opl_parse_int_ppc_ru32_defined fuel (s ++ 0 :: t) i = true :=
+  ⟨(SrcTie.Opl.src_tie_opl_parse_int_ppc_ri64_main s t i fuel hi hf).2,
+   (SrcTie.Opl.src_tie_opl_parse_int_ppc_ru32_main s t i fuel hi hf).2⟩
+
+-- the translated parser runs: "-42," → -42, stops at the comma; "4294967296" does not fit a uint32_t
+example : Src.OplParserFunctions.opl_parse_int_ppc_ri64 10 ([45, 52, 50, 44] ++ 0 :: []) 0 = .normal 3 (-42) := by decide +kernel
+example : Src.OplParserFunctions.opl_parse_int_ppc_ru32 20 ([52, 50, 57, 52, 57, 54, 55, 50, 57, 54] ++ 0 :: []) 0 =
+    .thrown "osmium::opl_error" 10 := by decide +kernel
+
+/-! #### the timestamp parser (osm/timestamp.hpp): `detail::fractional_seconds(const char**)` as a whole, and the digit
+     arithmetic of `detail::parse_timestamp` (the right-hand sides of the assignments to the six `std::tm` fields;
+     `std::tm` / `timegm` and the big `&&` condition with its effectful call are outside the translated subset) -/
+
+/-- `fractional_seconds` (noexcept) = `fractionalSeconds`: same flag, `*s` left at the model's rest (i.e. unchanged
+    when there are no fractional seconds), for EVERY NUL-terminated byte string and start position; no undefined
+    behaviour (the `do { ++str; } while (digit)` loop stops at the NUL) -/
+theorem src_tie_fractional_seconds (s t : List UInt8) (i fuel : Nat) (hi : i ≤ s.length) (hf : s.length - i + 2 ≤ fuel) :
+    ∃ j, i ≤ j ∧ j ≤ s.length ∧ (fractionalSeconds (s.drop i)).2 = s.drop j ∧
+      Src.Timestamp.fractional_seconds fuel (s ++ 0 :: t) i = .normal (j : Int) (fractionalSeconds (s.drop i)).1 ∧
+      Src.Timestamp.fractional_seconds_defined fuel (s ++ 0 :: t) i = true :=
+  SrcTie.Ts.src_tie_fractional_seconds_main s t i fuel hi hf
+
+/-- the field formulas of `parse_timestamp` on a cursor in front of "yyyy-mm-ddThh:mm:ss" (any separators: the
+    formulas do not look at them) = the model's `year - 1900`, `mon - 1`, `mday`, `hour`, `min`, `sec`
+    (`parseTimestamp`, Model/Conv.lean); none of the `int` computations overflows, every read is in bounds -/
+theorem src_tie_parse_timestamp_fields (s t : List UInt8) (i : Nat)
+    (y0 y1 y2 y3 c4 m0 m1 c7 d0 d1 c10 h0 h1 c13 i0 i1 c16 s0 s1 : UInt8) (rest : List UInt8)
+    (hdrop : s.drop i = y0 :: y1 :: y2 :: y3 :: c4 :: m0 :: m1 :: c7 :: d0 :: d1 :: c10 :: h0 :: h1 :: c13 :: i0 :: i1 :: c16 :: s0 :: s1 :: rest)
+    (hd : isDigit y0 ∧ isDigit y1 ∧ isDigit y2 ∧ isDigit y3 ∧ isDigit m0 ∧ isDigit m1 ∧ isDigit d0 ∧ isDigit d1 ∧
+          isDigit h0 ∧ isDigit h1 ∧ isDigit i0 ∧ isDigit i1 ∧ isDigit s0 ∧ isDigit s1) :
+    Src.Timestamp.parse_timestamp_year (s ++ 0 :: t) i = ((digitVal y0 * 1000 + digitVal y1 * 100 + digitVal y2 * 10 + digitVal y3 : Nat) : Int) - 1900 ∧
+    Src.Timestamp.parse_timestamp_mon (s ++ 0 :: t) i = ((digitVal m0 * 10 + digitVal m1 : Nat) : Int) - 1 ∧
+    Src.Timestamp.parse_timestamp_mday (s ++ 0 :: t) i = ((digitVal d0 * 10 + digitVal d1 : Nat) : Int) ∧
+    Src.Timestamp.parse_timestamp_hour (s ++ 0 :: t) i = ((digitVal h0 * 10 + digitVal h1 : Nat) : Int) ∧
+    Src.Timestamp.parse_timestamp_min (s ++ 0 :: t) i = ((digitVal i0 * 10 + digitVal i1 : Nat) : Int) ∧
+    Src.Timestamp.parse_timestamp_sec (s ++ 0 :: t) i = ((digitVal s0 * 10 + digitVal s1 : Nat) : Int) ∧
+    (Src.Timestamp.parse_timestamp_year_defined (s ++ 0 :: t) i && Src.Timestamp.parse_timestamp_mon_defined (s ++ 0 :: t) i &&
+     Src.Timestamp.parse_timestamp_mday_defined (s ++ 0 :: t) i && Src.Timestamp.parse_timestamp_hour_defined (s ++ 0 :: t) i &&
+     Src.Timestamp.parse_timestamp_min_defined (s ++ 0 :: t) i && Src.Timestamp.parse_timestamp_sec_defined (s ++ 0 :: t) i) = true := by
+  have hlen : i + 19 ≤ s.length := by
+    have := congrArg List.length hdrop
+    simp only [List.length_drop, List.length_cons] at this
+    omega
+  have hc : ∀ k, SrcTie.Ts.chr s i k = peek ((s.drop i).drop k) := by
+    intro k; unfold SrcTie.Ts.chr; rw [List.drop_drop]
+  obtain ⟨a0, a1, a2, a3, a5, a6, a8, a9, a11, a12, a14, a15, a17, a18⟩ := hd
+  have h := SrcTie.Ts.src_tie_parse_timestamp_fields s t i hlen (by
+    intro k hk
+    rw [hc k, hdrop]
+    simp only [List.mem_cons, List.not_mem_nil, or_false] at hk
+    rcases hk with rfl | rfl | rfl | rfl | rfl | rfl | rfl | rfl | rfl | rfl | rfl | rfl | rfl | rfl <;> simpa [peek])
+  simp only [hc, hdrop] at h
+  simp only [List.drop_succ_cons, List.drop_zero, peek] at h
+  obtain ⟨e1, e2, e3, e4, e5, e6, f1, f2, f3, f4, f5, f6⟩ := h
+  refine ⟨by rw [e1]; push_cast; rfl, by rw [e2]; push_cast; rfl, by rw [e3]; push_cast; rfl, by rw [e4]; push_cast; rfl,
+    by rw [e5]; push_cast; rfl, by rw [e6]; push_cast; rfl, by simp [f1, f2, f3, f4, f5, f6]⟩
 
 end SrcTies
 
